@@ -1,4 +1,156 @@
-From BV Require Import Common.Base Spec.Ecdsa Spec.Der Model.Key Proofs.Ecdsa Proofs.Der Proofs.Key.
+(* Props/C13.v – Keys: public-key derivation, WIF round trip, ECDSA sign / verify.
+   Statements only; every proof is [exact <lemma>].
+
+   WHAT IS PROVED.  OpenSSL is an external C library reached through ctypes; what is
+   modelled and proved is the Python-side logic of bitcoin/core/key.py, core/script.py
+   (IsLowDERSignature), wallet.py (CBitcoinSecret) around it.  Every theorem about ECDSA is
+   stated for an ARBITRARY structure E : curve satisfying curve_laws E (Spec/Ecdsa.v: an
+   abelian group acted on by Z, every element of prime order n, generator of order exactly
+   n, decidable equality, affine x with x(-P) = x(P), 0 <= x < p < 2n, and the element with a
+   given x and y-parity) – no axiom, the laws are hypotheses of each theorem.
+   WHAT IS NOT.  That the executable secp256k1 of Model/Secp256k1.v – and OpenSSL – satisfy
+   curve_laws (in particular that n is prime and that the chord-tangent law is associative)
+   is NOT proved; it is the assumption linking these theorems to the correspondence run
+   (tools/props/C13.py ASSUMPTIONS).  The side conditions that ARE checked for the concrete
+   parameters: C13_secp_side_conditions. *)
+From BV Require Import Common.Base Common.Hash Gen.Core Gen.Key Model.Base58 Spec.Base58 Spec.Ecdsa Spec.Der
+  Model.Secp256k1 Model.Key Proofs.Base58Spec Proofs.Ecdsa Proofs.Der Proofs.Key.
+From Coq Require Strings.String.
+Module WifLiteral.
+  Import Coq.Strings.String.
+  Definition s : string := "KwDiBf89QgGbjEhKnhXJuH7LrciVrZi3qYjgd9M7rFU73sVHnoWn"%string.
+End WifLiteral.
+
+(* ---------- ECDSA in every prime-order group ---------- *)
+(* modular inverse used by sign / verify / recover (extended Euclid, logarithmic fuel) *)
+Theorem C13_inv_mod : forall a n, Znumtheory.prime n -> a mod n <> 0 ->
+  (a * inv_mod a n) mod n = 1 /\ 0 <= inv_mod a n < n.
+Proof.
+  exact (fun a n P H => conj (inv_mod_prime a n P H)
+           (inv_mod_range a n (Z.lt_le_trans 0 2 n eq_refl (Znumtheory.prime_ge_2 n P)))).
+Qed.
+(* a signature made with a usable nonce verifies under the signer's public key *)
+Theorem C13_ecdsa_correct : forall E, curve_laws E -> forall d e k, valid_nonce E d e k ->
+  verify_ref E (pub E d) e (fst (sign_raw E d e k)) (snd (sign_raw E d e k)) = true.
+Proof. exact verify_sign. Qed.
+(* the twin (r, n - s) of a verifying signature verifies (any key), and normalisation
+   produces a low S in range *)
+Theorem C13_low_s_twin : forall E, curve_laws E -> forall Q e r s,
+  verify_ref E Q e r s = true -> verify_ref E Q e r (c_n E - s) = true.
+Proof. exact verify_twin. Qed.
+Theorem C13_norm_s : forall E s, 1 <= s < c_n E ->
+  low_s E (norm_s E s) = true /\ 1 <= norm_s E s < c_n E.
+Proof. exact norm_s_low. Qed.
+
+(* ---------- DER ---------- *)
+(* small v := 0 <= v < 2^256 *)
 Theorem C13_der_roundtrip : forall r s, small r -> small s -> parse_der (enc_der r s) = Some (r, s).
 Proof. exact parse_enc_der. Qed.
+(* the strict parser accepts exactly one byte string per (r, s): the canonical encoding
+   (minimal positive integers, short-form lengths that add up) *)
+Theorem C13_der_strict : forall b r s, parse_der b = Some (r, s) -> b = enc_der r s /\ 0 <= r /\ 0 <= s.
+Proof. exact parse_der_inv. Qed.
+Theorem C13_der_length : forall r s, small r -> small s -> (8 <= length (enc_der r s) <= 72)%nat.
+Proof. exact enc_der_length. Qed.
+
+(* ---------- IsLowDERSignature: the offset arithmetic on bytes ---------- *)
+(* CompareBigEndian(c1, c2) has the sign of the comparison of the big-endian numerals *)
+Theorem C13_compare_big_endian : forall c1 c2,
+  Forall (fun d => 0 <= d < 256) c1 -> Forall (fun d => 0 <= d < 256) c2 ->
+  (compare_big_endian c1 c2 > 0 <-> value_msb 256 c1 > value_msb 256 c2) /\
+  (compare_big_endian c1 c2 < 0 <-> value_msb 256 c1 < value_msb 256 c2).
+Proof. exact compare_big_endian_spec. Qed.
+(* on every canonical signature the function as written (sig[3], sig[5 + length_r], the
+   slice, the table regenerated from /repo) answers "0 < s <= n/2" for the secp256k1 order *)
+Theorem C13_is_low_der : forall r s, small r -> small s ->
+  is_low_der (enc_der r s) = Ok ((0 <? s) && (s <=? secp_n / 2)).
+Proof. exact is_low_der_secp. Qed.
+
+(* ---------- CECKey.sign / verify around the group ---------- *)
+(* for every usable nonce the value returned by sign() is the canonical DER encoding of
+   (r, low s): it is strictly DER (the only string the strict parser maps to (r, s)), at
+   most 72 bytes, has low S and satisfies the reference verification equation *)
+Theorem C13_sign : forall E, curve_laws E -> c_n E < 2 ^ 256 ->
+  value_msb 256 max_mod_half_order = c_n E / 2 ->
+  forall d hash k, length hash = 32%nat -> valid_nonce E d (be_dec hash) k ->
+  exists sig r s, cec_sign E d hash k = Ok sig /\
+    parse_der sig = Some (r, s) /\ (forall b, parse_der b = Some (r, s) -> b = sig) /\
+    (length sig <= 72)%nat /\ low_s E s = true /\ verify_ref E (pub E d) (be_dec hash) r s = true.
+Proof. exact cec_sign_ok. Qed.
+(* verify() on a strictly-DER signature is the reference verification; empty => False *)
+Theorem C13_verify_strict : forall E Q hash sig r s, parse_der sig = Some (r, s) ->
+  cec_verify E (Some Q) hash sig = verify_ref E Q (be_dec hash) r s.
+Proof. exact cec_verify_strict. Qed.
+(* what is checked about the concrete parameters (NOT the group laws) *)
+Theorem C13_secp_side_conditions :
+  value_msb 256 max_mod_half_order = c_n secp256k1 / 2 /\ c_n secp256k1 < 2 ^ 256 /\
+  c_n secp256k1 <= c_p secp256k1 /\ c_p secp256k1 < 2 * c_n secp256k1 /\ c_p secp256k1 <= 2 ^ 256.
+Proof.
+  exact (conj secp_table_ok (conj secp_n_small (conj (proj1 secp_p_bounds)
+         (conj (proj1 (proj2 secp_p_bounds)) (proj1 (proj2 (proj2 secp_p_bounds))))))).
+Qed.
+
+(* ---------- public keys ---------- *)
+(* the model of key derivation: the SEC1 encoding of d G in the selected form *)
+Theorem C13_pubkey : forall E secret c, length secret = 32%nat ->
+  cec_pubkey E secret c = Ok (sec1_enc E (form_of c) (pub E (be_dec secret))).
+Proof. exact (fun E secret c H => f_equal (fun b : bool => if negb b then Err ValueError else Ok _) (hash_len32 secret H)). Qed.
+(* the flags as written: is_valid = non-empty, is_compressed = 33 bytes; a fully valid key
+   has one of the SEC1 shapes: 00 | 02/03 + 32 bytes | 04/06/07 + 64 bytes *)
+Theorem C13_pubkey_flags : forall b,
+  pk_is_valid b = negb (length b =? 0)%nat /\ pk_is_compressed b = (length b =? 33)%nat.
+Proof. exact pk_flags. Qed.
+Theorem C13_fullyvalid_shape : forall E b, pk_is_fullyvalid E b = true ->
+  b = [x00] \/
+  (length b = 33%nat /\ exists h t, b = h :: t /\ (b2z h = 2 \/ b2z h = 3)) \/
+  (length b = 65%nat /\ exists h t, b = h :: t /\ (b2z h = 4 \/ b2z h = 6 \/ b2z h = 7)).
+Proof. exact pk_fullyvalid_shape. Qed.
+
+(* ---------- WIF ---------- *)
+(* under each of the four chains regenerated from /repo: the text of (secret, flag) is the
+   reference Base58Check text of prefix || secret || [01], parses back to the same secret and
+   flag, and is refused (CBitcoinSecretError) under every chain with another prefix; H is
+   an arbitrary checksum hash with >= 4 output bytes (Base58Check theorems: C10) *)
+Theorem C13_wif_roundtrip : forall H, (forall x, (4 <= length (H x))%nat) ->
+  forall p, In p chains -> forall secret c, length secret = 32%nat ->
+  exists t, secret_text H (cp_secret_key p) secret c = Ok t /\
+            t = spec_to_text H (cp_secret_key p) (secret ++ flag c) /\
+            secret_parse H (cp_secret_key p) t = Ok (secret, c) /\
+            (forall q, In q chains -> cp_secret_key q <> cp_secret_key p ->
+                       secret_parse H (cp_secret_key q) t = Err SecretErr).
+Proof. exact wif_roundtrip_chains. Qed.
+
+(* non-vacuity: concrete values on the executable curve and hashes (small scalars only:
+   a full-size scalar multiplication takes 25 s under vm_compute) *)
+Example C13_nonvacuous :
+  length chains = 4%nat /\
+  valid_nonceb secp256k1 3 5 2 = true /\
+  cec_pubkey secp256k1 (be_enc 32 1) true =
+    Ok (x02 :: be_enc 32 0x79BE667EF9DCBBAC55A06295CE870B07029BFCDB2DCE28D959F2815B16F81798) /\
+  pk_is_fullyvalid secp256k1 (x03 :: be_enc 32 secp_gx) = true /\
+  pk_is_fullyvalid secp256k1 (x02 :: be_enc 32 5) = false /\
+  is_low_der (enc_der 5 (secp_n / 2)) = Ok true /\
+  is_low_der (enc_der 5 (secp_n / 2 + 1)) = Ok false /\
+  is_low_der (enc_der 5 0) = Ok false /\
+  parse_der [x30; x06; x02; x01; x05; x02; x01; x07] = Some (5, 7) /\
+  parse_der [x30; x07; x02; x02; x00; x05; x02; x01; x07] = None /\
+  secret_parse sha256d 128
+    (text_of_string WifLiteral.s) = Ok (be_enc 32 1, true).
+Proof. vm_compute. repeat split; reflexivity. Qed.
+
+Print Assumptions C13_inv_mod.
+Print Assumptions C13_ecdsa_correct.
+Print Assumptions C13_low_s_twin.
+Print Assumptions C13_norm_s.
 Print Assumptions C13_der_roundtrip.
+Print Assumptions C13_der_strict.
+Print Assumptions C13_der_length.
+Print Assumptions C13_compare_big_endian.
+Print Assumptions C13_is_low_der.
+Print Assumptions C13_sign.
+Print Assumptions C13_verify_strict.
+Print Assumptions C13_secp_side_conditions.
+Print Assumptions C13_pubkey.
+Print Assumptions C13_pubkey_flags.
+Print Assumptions C13_fullyvalid_shape.
+Print Assumptions C13_wif_roundtrip.
